@@ -39,6 +39,8 @@ type World struct {
 	tagTypes []types.Type
 	globIDs  map[string]int
 	concrete []types.Type
+
+	ImmutableViolations []string
 }
 
 func repoDir() string {
@@ -49,7 +51,8 @@ func repoDir() string {
 }
 
 func LoadWorld() (*World, error) {
-	cfg := &packages.Config{Mode: packages.LoadAllSyntax, Dir: repoDir(), BuildFlags: []string{"-tags=verif"}}
+	cfg := &packages.Config{Mode: packages.LoadAllSyntax, Dir: repoDir(), BuildFlags: []string{"-tags=verif"},
+		Env: append(os.Environ(), "GOFLAGS=-mod=mod", "GOPROXY=off")}
 	pkgs, err := packages.Load(cfg, "./...")
 	if err != nil {
 		return nil, err
